@@ -833,11 +833,23 @@ def _common(ck, ctor, num_kw, payload_kw, reads, counter, sniff_total=True):
     if sniff_total:
         ck.total |= {"_get_image_pixel_dimensions", real_name(ck.rel, "_get_image_pixel_dimensions", ck.mod.repo), "_get_content_type", "guess_content_type", ctor}
     numbered = [c for c in sites if SI.kwv(c, num_kw) is not None]
-    if not numbered:
-        ck.unknown("numbering", "one-increment-per-numbered-image", f"no {ctor}({num_kw}=...) construction found")
-        return sites
-    ck.step_discipline(counter, _append_of(ctor, True, num_kw, ck), _append_of(ctor, False, num_kw, ck), unfollowed=_unfollowed_mutation(ctor, num_kw, ck))
-    ck.number_is_counter_after_increment(counter, numbered, num_kw)
+    # helper style (the image is built by a helper that receives its number and returns image-or-None): analysed on the function as written
+    hs = None
+    if ck.raw_fn is not None:
+        role = _constructs(ctor, with_param_number=True)
+        helpers = [q for q, f in ck.mod.functions.items() if isinstance(f, ast.FunctionDef) and q != ck.real and "." not in q and role(f)]
+        for hname in helpers:
+            hs = _helper_style(ck, hname)
+            if hs is not None:
+                ck.counter = hs["counter"]
+                _helper_style_obligations(ck, hs, hname, ("number-is-the-counter-after-its-increment", "one-increment-per-numbered-image", None))
+                break
+    if hs is None:
+        if not numbered:
+            ck.unknown("numbering", "one-increment-per-numbered-image", f"no {ctor}({num_kw}=...) construction found")
+            return sites
+        ck.step_discipline(counter, _append_of(ctor, True, num_kw, ck), _append_of(ctor, False, num_kw, ck), unfollowed=_unfollowed_mutation(ctor, num_kw, ck))
+        ck.number_is_counter_after_increment(counter, numbered, num_kw)
     # (d) payload = value returned by the container read of the verified name, untransformed
     bad, n_ok = [], 0
     sinks = method_calls(ck.fn, reads)
@@ -1268,40 +1280,129 @@ def _threaded_counter(ck, counter, via, reader):
     ck.add("numbering", "counter-starts-at-zero-once-per-document", ok, detail or "counter not threaded parameter -> result through the sheet helper", definite=ok or bool(detail))
 
 
-def _odp(ck, repo):
+def _test_says_not_none(test, name, positive=True):
+    """`test` holds exactly when `name` is an image (positive) / is None (not positive): `x is not None`, `x`, `not (x is None)`, ..."""
+    t = ast.unparse(test).replace("(", "").replace(")", "")
+    pos_forms = (f"{name} is not None", f"{name}", f"not {name} is None", f"{name} != None")
+    neg_forms = (f"{name} is None", f"not {name}", f"not {name} is not None", f"{name} == None")
+    return t in (pos_forms if positive else neg_forms)
+
+
+def _guarded_not_none(pm, node, name):
+    """The statement runs only when `name` is not None: inside `if name is not None:` (or the else of the opposite test), or after an
+    `if name is None: continue / return / break` in an enclosing block."""
+    from contracts.c14_flow import ancestors
+    chain = [node] + ancestors(pm, node)
+    for child, a in zip(chain, chain[1:]):
+        if isinstance(a, ast.If):
+            in_body = any(child is x for x in a.body)
+            if (in_body and _test_says_not_none(a.test, name, True)) or (not in_body and _test_says_not_none(a.test, name, False)):
+                return True
+        for fld in ("body", "orelse", "finalbody"):
+            lst = getattr(a, fld, None)
+            if isinstance(lst, list) and any(child is x for x in lst):
+                k = [i for i, x in enumerate(lst) if child is x][0]
+                for prev in lst[:k]:
+                    if isinstance(prev, ast.If) and not prev.orelse and _test_says_not_none(prev.test, name, False) and prev.body \
+                            and isinstance(prev.body[-1], (ast.Continue, ast.Return, ast.Break, ast.Raise)):
+                        return True
+    return False
+
+
+def _helper_style(ck, helper, fn=None):
+    """The image is built by a helper that receives its number and returns the image or None; the caller appends the result and
+    increments its counter when an image came back.  -> dict(call, img, counter, number_ok, why) or None when the shape is absent."""
     from contracts import c14_sites as SI
-    counter = "image_counter"
-    helper = real_name(ODP, "_extract_image", repo)
-    calls = [n for n in ast.walk(ck.fn) if isinstance(n, ast.Call) and dotted(n.func) == helper]
+    fn = fn or ck.raw_fn
+    pm = SI.parent_map(fn)
+    h = ck.mod.functions.get(helper)
+    if h is None:
+        return None
+    calls = [n for n in ast.walk(fn) if isinstance(n, ast.Call) and dotted(n.func) == helper]
     if len(calls) != 1:
-        return ck.unknown("numbering", "one-increment-per-numbered-image", f"{len(calls)} calls of the image helper")
+        return None
     call = calls[0]
-    arg_ok = len(call.args) == 4 and ast.unparse(call.args[3]) == f"{counter} + 1"
-    ck.add("numbering", "number-handed-to-the-helper-is-counter-plus-one", arg_ok, ast.unparse(call))
-    asg = ck.pm.get(call)
+    # which parameter of the helper becomes the stored number
+    pnum = None
+    for n in ast.walk(h):
+        if isinstance(n, ast.Call) and isinstance(n.func, ast.Name):
+            for k in n.keywords:
+                if k.arg in ("image_index", "index") and isinstance(k.value, ast.Name) and k.value.id in [a.arg for a in h.args.args]:
+                    pnum = k.value.id
+    if pnum is None:
+        return None
+    idx = [a.arg for a in h.args.args].index(pnum)
+    arg = call.args[idx] if idx < len(call.args) else next((k.value for k in call.keywords if k.arg == pnum), None)
+    incs = sorted({(n.target.id if isinstance(n, ast.AugAssign) else n.targets[0].id) for n in ast.walk(fn)
+                   if (isinstance(n, ast.AugAssign) and isinstance(n.target, ast.Name) and SI.is_inc(n, n.target.id))
+                   or (isinstance(n, ast.Assign) and len(n.targets) == 1 and isinstance(n.targets[0], ast.Name) and SI.is_inc(n, n.targets[0].id))})
+    counter = next((c for c in incs if arg is not None and any(isinstance(x, ast.Name) and x.id == c for x in ast.walk(arg))), None)
+    if counter is None:
+        return None
+    number_ok = arg is not None and ast.unparse(arg).replace(" ", "") in (f"{counter}+1", f"1+{counter}")
+    asg = pm.get(call)
     if not (isinstance(asg, ast.Assign) and len(asg.targets) == 1 and isinstance(asg.targets[0], ast.Name)):
-        return ck.unknown("numbering", "one-increment-per-numbered-image", "result of _extract_image is not bound to a name")
-    img = asg.targets[0].id
+        return dict(call=call, img=None, counter=counter, number_ok=number_ok, arg=arg, pm=pm, fn=fn)
+    return dict(call=call, img=asg.targets[0].id, counter=counter, number_ok=number_ok, arg=arg, pm=pm, fn=fn)
+
+
+def _helper_style_obligations(ck, hs, helper, ids):
+    """Numbering obligations for the helper style; `ids`: labels for (number, step, guard)."""
+    from contracts import c14_sites as SI
+    from contracts.c14_flow import reaching
+    fn, pm, counter, img = hs["fn"], hs["pm"], hs["counter"], hs["img"]
+    # the number handed over is counter + 1, evaluated before this iteration's increment
+    b = reaching(fn, pm, counter, hs["call"])
+    loops = SI.loops_around(pm, hs["call"])
+    before_inc = not (b is not None and b.kind != "param" and SI.is_inc(b.node, counter) and loops and id(b.node) in set(id(x) for x in ast.walk(loops[0])))
+    ck.add("numbering", ids[0], hs["number_ok"] and before_inc, f"{ast.unparse(hs['call'])[:90]}", definite=False)
+    if img is None:
+        return ck.unknown("numbering", ids[1], "the helper's result is not bound to a name")
 
     def app(n):
         return isinstance(n, ast.Call) and isinstance(n.func, ast.Attribute) and n.func.attr == "append" and len(n.args) == 1 \
             and isinstance(n.args[0], ast.Name) and n.args[0].id == img
-    ck.total |= {"_extract_image", helper, "_extract_table", "_extract_annotations", "_get_text_recursive"}
-    ck.step_discipline(counter, app, lambda n: False)
-    # appended only when the helper returned an image (not None)
-    apps = [n for n in ast.walk(ck.fn) if app(n)]
-    guarded = all(any(isinstance(a, ast.If) and ast.unparse(a.test) == f"{img} is not None" for a in SI.ancestors(ck.pm, n)) for n in apps) and bool(apps)
-    ck.add("numbering", "appended-iff-the-helper-returned-an-image", guarded, "")
-    # threading through read_odp
+    saved = (ck.fn, ck.pm)
+    ck.fn, ck.pm = fn, pm
+    try:
+        ck.total |= {helper, "_extract_table", "_extract_annotations", "_get_text_recursive", "_get_shape_position"}
+        ck.step_discipline(counter, app, lambda n: False, label=ids[1])
+        apps = [n for n in ast.walk(fn) if app(n)]
+        guarded = bool(apps) and all(_guarded_not_none(pm, SI.enclosing_stmt(pm, n), img) for n in apps)
+        incn = [n for n in ast.walk(fn) if SI.is_inc(n, counter) and loops and id(n) in set(id(x) for x in ast.walk(loops[0]))]
+        guarded = guarded and all(_guarded_not_none(pm, n, img) for n in incn)
+        if ids[2]:
+            ck.add("numbering", ids[2], guarded, "" if guarded else "the append / increment is not confined to the case in which the helper returned an image", definite=False)
+        return guarded
+    finally:
+        ck.fn, ck.pm = saved
+
+
+def _odp(ck, repo):
+    from contracts import c14_sites as SI
+    helper = real_name(ODP, "_extract_image", repo)
+    hs = _helper_style(ck, helper)
+    if hs is None:
+        return ck.unknown("numbering", "one-increment-per-numbered-image", "no single call of an image helper that receives the number: shape not recognised")
+    counter = hs["counter"]
+    _helper_style_obligations(ck, hs, helper, ("number-handed-to-the-helper-is-counter-plus-one", "one-increment-per-numbered-image",
+                                               "appended-iff-the-helper-returned-an-image"))
+    # threading through the reader: the counter is a parameter, returned, initialised to 0 once by the caller
     is_param = any(a.arg == counter for a in ck.fn.args.args)
     returns = [n for n in ast.walk(ck.fn) if isinstance(n, ast.Return)]
     ret_ok = bool(returns) and all(isinstance(r.value, ast.Tuple) and any(isinstance(e, ast.Name) and e.id == counter for e in r.value.elts) for r in returns)
     rk = SI.Checker("C14", ck.rel, "read_odp", repo)
     ok = is_param and ret_ok and rk.fn is not None
+    cname = None
     if ok:
-        z = rk.starts_at_zero_once(counter)
+        # the caller's counter: the name it hands to this function at the counter's position
+        pos_ = [a.arg for a in ck.fn.args.args].index(counter)
+        for n in ast.walk(rk.fn):
+            if isinstance(n, ast.Call) and dotted(n.func) == ck.real and len(n.args) > pos_ and isinstance(n.args[pos_], ast.Name):
+                cname = n.args[pos_].id
+        z = rk.starts_at_zero_once(cname or counter)
         ok = z is not None and not isinstance(z, bool) and rk.obls == []
-    ck.add("numbering", "counter-starts-at-zero-once-per-document", ok, "; ".join(o["reason"] for o in rk.obls))
+    ck.add("numbering", "counter-starts-at-zero-once-per-document", ok, "; ".join(o["reason"] for o in rk.obls), definite=False)
 
 
 def _pdf(ck):
